@@ -10,7 +10,13 @@ use crate::charsets::Charset;
 /// of UTF-8 encoded bytes. The `Read::read_to_string` method can be used to convert
 /// the stream of UTF-8 bytes into a `String`.
 #[derive(Debug)]
-pub struct TextReader<R>(DecodeReaderBytes<R, Vec<u8>>);
+pub struct TextReader<R> {
+    inner: DecodeReaderBytes<R, Vec<u8>>,
+    // Decoded bytes waiting for a caller that reads with very small buffers.
+    pending: [u8; 4],
+    pending_pos: usize,
+    pending_len: usize,
+}
 
 impl<R> TextReader<R>
 where
@@ -18,7 +24,12 @@ where
 {
     /// Create a new `TextReader` with the given charset.
     pub fn new(inner: R, charset: Charset) -> Self {
-        Self(DecodeReaderBytesBuilder::new().encoding(Some(charset)).build(inner))
+        Self {
+            inner: DecodeReaderBytesBuilder::new().encoding(Some(charset)).build(inner),
+            pending: [0; 4],
+            pending_pos: 0,
+            pending_len: 0,
+        }
     }
 }
 
@@ -27,7 +38,21 @@ where
     R: Read,
 {
     fn read(&mut self, buf: &mut [u8]) -> io::Result<usize> {
-        self.0.read(buf)
+        if self.pending_pos == self.pending_len {
+            if buf.is_empty() || buf.len() >= self.pending.len() {
+                return self.inner.read(buf);
+            }
+
+            // The decoder loses the tail of the final replacement character when it is handed a
+            // buffer that cannot hold a whole UTF-8 sequence, so always give it room for one.
+            self.pending_len = self.inner.read(&mut self.pending)?;
+            self.pending_pos = 0;
+        }
+
+        let n = buf.len().min(self.pending_len - self.pending_pos);
+        buf[..n].copy_from_slice(&self.pending[self.pending_pos..self.pending_pos + n]);
+        self.pending_pos += n;
+        Ok(n)
     }
 }
 
